@@ -164,3 +164,11 @@ func (p *Prog) callsInSet(fns map[*ssa.Function]bool, ids ...string) []ssa.CallI
 	}
 	return out
 }
+
+func structOf(t types.Type) *types.Struct {
+	if pt, ok := t.Underlying().(*types.Pointer); ok {
+		t = pt.Elem()
+	}
+	st, _ := t.Underlying().(*types.Struct)
+	return st
+}
